@@ -682,6 +682,23 @@ fn find_identifier_end(input: &str, offset: usize) -> usize {
     }
 }
 
+/// Verification hook: run one specific identifier-scanning routine.
+///
+/// `which` is `"generic"`, `"avx2"` (None when the CPU lacks AVX2) or `"dispatched"` (what the lexer uses).
+#[cfg(feature = "verif_hooks")]
+pub fn verif_find_identifier_end(which: &str, input: &str, offset: usize) -> Option<usize> {
+    match which {
+        "generic" => Some(find_identifier_end_generic(input, offset)),
+        "dispatched" => Some(find_identifier_end(input, offset)),
+        #[cfg(target_arch = "x86_64")]
+        "avx2" if is_x86_feature_detected!("avx2") => {
+            // SAFETY: the required intrinsics were just checked to be supported.
+            Some(unsafe { find_identifier_end_avx2(input, offset) })
+        }
+        _ => None,
+    }
+}
+
 fn count_bytes_in_set(input: &str, offset: usize, set: &[bool; 256]) -> usize {
     count_matching(input, offset, |b| set[*b as usize])
 }
